@@ -3,7 +3,7 @@
 #   build_harness.sh <variant>     variant: asan | be | tsan
 # The binary is cached under /verif/.cache/harness/<variant>-<hash of sources>/harness; prints its path.
 set -e
-V=/verif
+V=$(cd "$(dirname "$0")/.." && pwd)
 REPO=${SBDF_REPO:-/repo}
 VAR=${1:-asan}
 HASH=$(cat $REPO/src/*.c $REPO/src/*.h $REPO/include/*.h $V/harness/*.c | sha1sum | cut -c1-16)
